@@ -4,7 +4,7 @@
 Require Import FastZ.
 From Dashu Require Import Base.Prelude Base.Words Int.BitsSpec Int.IoSpec Int.GrlSpec Float.RoundSpec Float.Contract.
 From Dashu Require Import Ratio.SimplestSpec.
-From Dashu Require Import Serde.WireModel Serde.CfgValueSpec.
+From Dashu Require Import Serde.WireModel Serde.CfgValueSpec Serde.FloatToIeeeAsis.
 Extraction "model.ml"
   to_words value
   sle_value sle_bytes ubig_enc ubig_dec ibig_enc ibig_dec
@@ -19,4 +19,5 @@ Extraction "model.ml"
   digits_spec digit_char from_str_radix_spec from_str_prefix_spec to_signed_le_bytes_spec le_signed_value
   f32_decode f64_decode log2_bound_check log2_bound_exact log2_bound_k
   check_contract cmp_kx
-  next_up_check next_down_check.
+  next_up_check next_down_check
+  wide_class.
